@@ -255,7 +255,11 @@ func (p *c11) Run(ci any, env *core.Env) *core.Failure {
 		}
 		add("Engine.FindAllSubmatch=FindAllSubmatchIndex", toPairs2(eas), toPairs2(allSub))
 		// *At(k) variants agree with each other for sampled k
-		ks := []int{c.K % (len(h) + 1), len(h)}
+		k0 := c.K
+		if k0 < 0 {
+			k0 = -k0
+		}
+		ks := []int{k0 % (len(h) + 1), len(h)}
 		for _, m := range all {
 			if len(ks) < 6 {
 				ks = append(ks, m[1])
